@@ -164,7 +164,10 @@ def fam_timers(seed, i):
         kind = rng.choice(["interval", "interval", "interval_with", "interval_with", "delayed_send", "delayed_exec"])
         return eff(kind, rng.randint(1, 3), f"t{tn[0]}")
 
-    sscr0 = [Y] * rng.choice([0, 1]) + [timer_eff() for _ in range(rng.choice([0, 1, 1, 2]))]
+    sscr0 = [Y] * rng.choice([0, 1]) + [timer_eff() for _ in range(rng.choice([0, 1, 1, 2, 3, 4]))]
+    if rng.random() < 0.25:
+        # several one-shots that finish in arming order while a later-armed timer is still pending
+        sscr0 = [eff(rng.choice(["delayed_send", "delayed_exec"]), 1, f"o{k}") for k in range(rng.choice([2, 3]))] + [eff(rng.choice(["interval", "interval_with", "delayed_send", "delayed_exec"]), rng.randint(4, 6), "late")]
     strat = rng.choice(["restart", "restart", "recreate", "none"])
     cfg = {"cap": rng.choice([-1, -1, 0, 1, 2]), "strat": strat, "pscr": [Y] * rng.choice([0, 1]), "sscr": [sscr0], "owning": rng.random() < 0.3}
     fault = rng.choice(["none", "none", "none", "panic", "cancel"])
